@@ -7,7 +7,7 @@
      native_parse    FromStr of uuid/chrono/std::net natives (= their Deserialize from a
                      JSON string: assumption A1, validated on every run)
      native_display / native_ser   Display / Serialize of those natives.
-   Domain: string_wired T f t (wire form always a JSON string); wf_conv T f t says that the
+   Domain: string_wired sn T f t (wire form always a JSON string); wf_conv T f t says that the
    bespoke-impl lists of the enums reached are sound for has_impl (what finalize
    guarantees; evaluated to true on every type space the check explores). *)
 From Coq Require Import String Ascii ZArith NArith List Bool.
@@ -25,14 +25,14 @@ Definition Known_F2 (nok : ustring -> bool) (T : space) (f : nat) (t : id) : Pro
 
 (* ---- parsing succeeds exactly when deserialising the JSON string does, same value ---- *)
 Theorem C11_parse_eq_de :
-  forall (re_match native_parse : ustring -> ustring -> bool) (T : space) (f : nat) (t : id) (s : ustring),
-    string_wired T f t = true -> wf_conv T f t = true -> emits_fromstr T f t = true ->
+  forall (re_match native_parse : ustring -> ustring -> bool) (sn : ustring -> bool) (T : space) (f : nat) (t : id) (s : ustring),
+    string_wired sn T f t = true -> wf_conv T f t = true -> emits_fromstr T f t = true ->
     from_str re_match native_parse T f t s = de_str re_match native_parse T f t s.
 Proof. exact parse_eq_de. Qed.
 
 Theorem C11_parse_iff_de :
-  forall (re_match native_parse : ustring -> ustring -> bool) (T : space) (f : nat) (t : id) (s : ustring),
-    string_wired T f t = true -> wf_conv T f t = true -> emits_fromstr T f t = true ->
+  forall (re_match native_parse : ustring -> ustring -> bool) (sn : ustring -> bool) (T : space) (f : nat) (t : id) (s : ustring),
+    string_wired sn T f t = true -> wf_conv T f t = true -> emits_fromstr T f t = true ->
     (from_str re_match native_parse T f t s <> None <-> de_str re_match native_parse T f t s <> None) /\
     (forall x y, from_str re_match native_parse T f t s = Some x ->
                  de_str re_match native_parse T f t s = Some y -> x = y).
@@ -49,25 +49,25 @@ Proof. exact try_from_eq_parse. Qed.
 
 (* ---- deny/enum-value newtypes over String: TryFrom<String> is what Deserialize does ---- *)
 Theorem C11_try_from_inner_eq_de :
-  forall (re_match native_parse : ustring -> ustring -> bool) (T : space) (f : nat) (t : id) (s : ustring),
-    string_wired T f t = true -> emits_tryfrom_inner T t = true ->
+  forall (re_match native_parse : ustring -> ustring -> bool) (sn : ustring -> bool) (T : space) (f : nat) (t : id) (s : ustring),
+    string_wired sn T f t = true -> emits_tryfrom_inner T t = true ->
     de_str re_match native_parse T f t s = try_from_inner T t s.
 Proof. exact try_from_inner_eq_de. Qed.
 
 (* ---- Display prints the string serialisation writes (outside F2), for EVERY raw name ---- *)
 Theorem C11_display_is_ser :
-  forall (re_match native_parse : ustring -> ustring -> bool)
+  forall (re_match native_parse : ustring -> ustring -> bool) (sn : ustring -> bool)
          (native_display native_ser : ustring -> ustring -> ustring) (nok : ustring -> bool),
     (forall n s, nok n = true -> native_parse n s = true -> native_display n s = native_ser n s) ->
     forall (T : space) (f : nat) (t : id) (s : ustring) (x : sval),
-      string_wired T f t = true -> wf_conv T f t = true -> emits_display T f t = true ->
+      string_wired sn T f t = true -> wf_conv T f t = true -> emits_display T f t = true ->
       ~ Known_F2 nok T f t ->
       de_str re_match native_parse T f t s = Some x ->
       display native_display T f t x = ser_str native_ser T f t x /\
       ser_str native_ser T f t x <> None.
 Proof.
-  intros re np nd ns nok Hnat T f t s x W F E K2 D.
-  apply (display_is_ser re np nd ns nok Hnat T f t s x W F E); auto.
+  intros re np sn nd ns nok Hnat T f t s x W F E K2 D.
+  apply (display_is_ser re np nd ns nok sn Hnat T f t s x W F E); auto.
   unfold Known_F2 in K2.
   destruct (display_ok nok T f t) eqn:B; [reflexivity | exfalso; apply K2; reflexivity].
 Qed.
@@ -89,7 +89,7 @@ Definition nofn : ustring -> ustring -> bool := fun _ _ => false.
 Definition nostr : ustring -> ustring -> ustring := fun _ _ => [].
 
 Example C11_brace_regression :
-  string_wired T_brace 3 1 = true /\ wf_conv T_brace 3 1 = true /\ emits_display T_brace 3 1 = true /\
+  string_wired is_string_native T_brace 3 1 = true /\ wf_conv T_brace 3 1 = true /\ emits_display T_brace 3 1 = true /\
   display nostr T_brace 3 1 (SEnum 0) = Some [123; 123] /\
   ser_str nostr T_brace 3 1 (SEnum 0) = Some [123; 123] /\
   display nostr T_brace 3 1 (SEnum 1) = Some [123] /\
@@ -107,14 +107,14 @@ Definition dt_shown : ustring := ustr_of_string "2020-01-01 00:00:00 UTC".
 
 Theorem C11_display_datetime_refuted :
   exists (native_parse : ustring -> ustring -> bool) (native_display native_ser : ustring -> ustring -> ustring)
-         (nok : ustring -> bool) (T : space) (f : nat) (t : id) (s : ustring) (x : sval),
+         (nok sn : ustring -> bool) (T : space) (f : nat) (t : id) (s : ustring) (x : sval),
     (forall n s, nok n = true -> native_parse n s = true -> native_display n s = native_ser n s) /\
-    string_wired T f t = true /\ wf_conv T f t = true /\ emits_display T f t = true /\
+    string_wired sn T f t = true /\ wf_conv T f t = true /\ emits_display T f t = true /\
     Known_F2 nok T f t /\
     de_str nofn native_parse T f t s = Some x /\
     display native_display T f t x <> ser_str native_ser T f t x.
 Proof.
-  exists (fun _ _ => true), (fun _ _ => dt_shown), (fun _ s => s), (fun _ => false),
+  exists (fun _ _ => true), (fun _ _ => dt_shown), (fun _ s => s), (fun _ => false), is_string_native,
          T_dt, 3%nat, 1, dt_s, (SWrap (SNative dt_name dt_s)).
   split; [intros n s H; discriminate|].
   vm_compute. repeat split; try reflexivity. intros H; discriminate.
@@ -144,17 +144,17 @@ Qed.
 
 (* the variant FromStr picks is the variant serde picks, and every earlier one fails to deserialise *)
 Theorem C11_untagged_order :
-  forall (re_match native_parse : ustring -> ustring -> bool) (T : space) (f : nat) (t : id) (s : ustring)
+  forall (re_match native_parse : ustring -> ustring -> bool) (sn : ustring -> bool) (T : space) (f : nat) (t : id) (s : ustring)
          n d vs dn bes k v,
     get_det T t = Some (DEnum n d TagUntagged vs dn bes) ->
-    string_wired T (S f) t = true -> wf_conv T (S f) t = true -> emits_fromstr T (S f) t = true ->
+    string_wired sn T (S f) t = true -> wf_conv T (S f) t = true -> emits_fromstr T (S f) t = true ->
     from_str re_match native_parse T (S f) t s = Some (SUntagged k v) ->
     de_str re_match native_parse T (S f) t s = Some (SUntagged k v) /\
     (forall j vr', (j < k)%nat -> nth_error vs j = Some vr' ->
                    variant_conv (fun i => de_str re_match native_parse T f i s) vr' = None).
 Proof.
-  intros re np T f t s n d vs dn bes k v E W F Em H.
-  rewrite (parse_eq_de re np T (S f) t s W F Em) in H. split; [exact H|].
+  intros re np sn T f t s n d vs dn bes k v E W F Em H.
+  rewrite (parse_eq_de re np sn T (S f) t s W F Em) in H. split; [exact H|].
   exact (proj2 (untagged_de_str_first re np T f t s n d vs dn bes k v E H)).
 Qed.
 
@@ -207,7 +207,7 @@ Definition T_ex : space :=
           7 noset false true false false [].
 
 Example C11_hyps_satisfiable_untagged :
-  string_wired T_ex 4 1 = true /\ wf_conv T_ex 4 1 = true /\ emits_fromstr T_ex 4 1 = true /\
+  string_wired is_string_native T_ex 4 1 = true /\ wf_conv T_ex 4 1 = true /\ emits_fromstr T_ex 4 1 = true /\
   emits_display T_ex 4 1 = true /\ ~ Known_F2 (fun _ => true) T_ex 4 1 /\
   from_str nofn (fun _ _ => true) T_ex 4 1 [97; 98; 99; 100] = Some (SUntagged 1 (SNative uuid_name [97; 98; 99; 100])) /\
   from_str nofn (fun _ _ => true) T_ex 4 1 [97] = Some (SUntagged 0 (SWrap (SStr [97]))).
@@ -217,7 +217,7 @@ Proof.
 Qed.
 
 Example C11_hyps_satisfiable_enum :
-  string_wired T_ex 4 6 = true /\ wf_conv T_ex 4 6 = true /\ emits_fromstr T_ex 4 6 = true /\
+  string_wired is_string_native T_ex 4 6 = true /\ wf_conv T_ex 4 6 = true /\ emits_fromstr T_ex 4 6 = true /\
   emits_display T_ex 4 6 = true /\
   de_str nofn nofn T_ex 4 6 [97; 45; 98] = Some (SWrap (SEnum 0)) /\
   display nostr T_ex 4 6 (SWrap (SEnum 0)) = Some [97; 45; 98].
